@@ -70,18 +70,28 @@ def lifecycle_case(case):
     eab = case.get('eab')
     eab_key = bytes((case['i'] * 7 + k) % 256 for k in range(case.get('eab_len', 32)))
     cap = {'require_eab': bool(eab), 'eab_keys': {'kid-%d' % case['i']: eab_key.hex()}} if eab else {}
+    if case.get('alt_host'):
+        # the CA issues account URLs under another spelling of its host name: that string is the account's identity (kid) from then on
+        cap['account_url_host'] = 'LOCALHOST'
     plan = {'default': dict({'lifetimes_s': [100, LONG], 'chain_lens': [1], 'nonce_on_get': case['nonce_on_get']}, **cap)}
 
-    def mk_cfg(key_type, contacts):
+    def mk_cfg(key_type, contacts, acc_fail=False):
         def cfg(d, ca):
             acc = {'name': 'acc1', 'contacts': contacts, 'key_type': key_type}
+            extra = []
+            if acc_fail:
+                # the account file cannot be rewritten during this run (its file-pre-edit hook fails every time)
+                with open(d + '/hookplan.json', 'w') as f:
+                    json.dump({'exit': {'h_accfail': [1] * 200}}, f)
+                extra = [C.rec_hook('h_accfail', ['file-pre-edit'], d + '/hooks.log', plan=d + '/hookplan.json')]
+                acc['hooks'] = ['h_all', 'h_accfail']
             if eab:
                 acc['external_account'] = {'identifier': 'kid-%d' % case['i'], 'key': b64u(eab_key), 'signature_algorithm': eab}
             certs = [{'name': 'c0', 'identifiers': S.ids('l%d.example.org' % case['i']), 'endpoint': 'ca1'}]
             if case.get('two_endpoints'):
                 # the same account on a second CA: every roll-over / update is owed to each of them separately
                 certs.append({'name': 'c1', 'identifiers': S.ids('m%d.example.org' % case['i']), 'endpoint': 'ca2'})
-            return S.std_config(d, ca, certs, accounts=[acc], ca_names=['ca1', 'ca2'] if case.get('two_endpoints') else ['ca1'])
+            return S.std_config(d, ca, certs, accounts=[acc], ca_names=['ca1', 'ca2'] if case.get('two_endpoints') else ['ca1'], extra_hooks=extra)
         return cfg
 
     nc = 2 if case.get('two_endpoints') else 1
@@ -111,6 +121,12 @@ def lifecycle_case(case):
         # the key type is changed, the daemon restarted with nothing due (a new key is generated and stored, the CA is not told),
         # then changed again: the roll-over that follows must still be authorised by the key the CA holds
         phases.append({'cfg': mk_cfg(case['kmid'], ['b@example.org', 'c@example.org']), 'stop': idle, 'timeout': 30, 'abort_on_timeout': False})
+    if case.get('unsaved_key'):
+        # the key type is edited while the account file cannot be rewritten: whatever the daemon does in that run (refusing to start is
+        # fine), the run after it must still be able to speak for the account
+        phases += [
+            {'cfg': mk_cfg(case['k1'], ['b@example.org', 'c@example.org'], acc_fail=True), 'before': rm_cert, 'timeout': 25, 'abort_on_timeout': False,
+             'stop': lambda hooks, log: len([h for h in hooks if C.hook_event(h) == 'post-operation']) >= 2 * nc}]
     if case.get('refused_update'):
         # key and contacts are edited together; the CA accepts the roll-over and refuses the contact update for the whole run; after the
         # next restart the account must still speak with the key the CA now holds
@@ -130,7 +146,7 @@ def lifecycle_case(case):
         res['phases_done'] = len([p for p in run.phases if not p['timed_out']])
         succ = len(S.successes(run.hooks))
         res['successes'] = succ
-        if succ < (5 + (1 if case.get('refused_update') else 0)) * nc:
+        if succ < (5 + (1 if case.get('refused_update') else 0)) * nc and not case.get('unsaved_key'):
             res['infra'] = 'lifecycle %s->%s: only %d of the expected issuances succeeded (phases: %s)' % (case['k0'], case['k1'], succ, [(p['rc'], p['timed_out']) for p in run.phases])
         if res['problems']:
             res['replay_dir'] = run.dir
@@ -244,7 +260,7 @@ def run(tier):
         if 'rsa4096' in (k0, k1) and i % 4:
             k0, k1 = (k0 if k0 != 'rsa4096' else 'ecdsa_p384'), (k1 if k1 != 'rsa4096' else 'ed448')
         kmid = [t for t in ('ecdsa_p384', 'ed25519', 'ecdsa_p256', 'ed448') if t not in (k0, k1)][i % 2]
-        life.append({'i': i, 'k0': k0, 'k1': k1, 'kmid': kmid, 'double_key': i % 3 == 1, 'refused_update': i % 4 == 2, 'two_endpoints': bool(i % 2 == 0), 'eab': EAB_ALGS[i % 3] if i % 2 else None, 'eab_len': r.choice([16, 32, 64, 100]),
+        life.append({'i': i, 'k0': k0, 'k1': k1, 'kmid': kmid, 'double_key': i % 3 == 1, 'refused_update': i % 4 == 2, 'unsaved_key': i % 7 == 3, 'alt_host': i % 5 == 4, 'two_endpoints': bool(i % 2 == 0), 'eab': EAB_ALGS[i % 3] if i % 2 else None, 'eab_len': r.choice([16, 32, 64, 100]),
                      'nonce_on_get': bool(i % 3)})
     storms = [{'i': i, 'k0': kts[(i + 2) % 7] if (kts[(i + 2) % 7] != 'rsa4096' or i % 3 == 0) else 'ecdsa_p521', 'n_ids': r.choice([1, 2, 3]),
                'lens': [r.randint(1, 9) for _ in range(12)], 'nonce_on_get': bool(i % 2),
